@@ -2,6 +2,9 @@
 Require Import Pearl.Base.Prelude Pearl.Storage.Model Pearl.Storage.Spec Pearl.Storage.NoHarmProofs Pearl.Io.Trace Pearl.Io.TraceProofs.
 
 Require Pearl.Generated.Facts.
+Require Pearl.Conc.SyncAcct Pearl.Conc.SyncAcctProofs.
+Module SA := Pearl.Conc.SyncAcct.
+Module SAP := Pearl.Conc.SyncAcctProofs.
 (* EVERY history of the storage model (all operations, restarts, drops, background requests, dumps at
    quiescence points) produces a file-operation trace that the three predicates accept: appends land at
    the end of their blob, a blob's header is synced before any record goes into it, and an index file is
@@ -71,20 +74,85 @@ Theorem C12_unsynced_index_rejected :
     (open_new_evs 0 ++ [EvAppend (FBlob, 0) 20 74; EvCreate (FIndex, 0); EvAppend (FIndex, 0) 0 249; EvWriteAt (FIndex, 0) 0 83]) = false.
 Proof. vm_compute. reflexivity. Qed.
 
+(* ---- the accounting of un-synced bytes under concurrency (Conc/SyncAcct.v): any number of appends (count itself in
+   flight, reserve, write, read `size`, leave; the last one out raises `written_size`) and of syncs (read
+   `written_size`, fdatasync, raise `synced_size`), every interleaving of their atomic steps, any lengths. `g_durable` is
+   the ghost "everything that had landed when a completed fdatasync began"; `clp` the contiguous landed prefix. ---- *)
+(* what is counted as synced is durable, what is durable has landed: `dirty_bytes()` never under-reports *)
+Theorem C12_synced_never_exceeds_durable : forall (b : N) (ths : list SA.thread) (sched : list nat),
+  SA.fresh ths ->
+  let '(g, ths') := SA.run SA.PNew (SA.init b ths) sched in
+  (SA.g_synced g <= SA.g_durable g /\ SA.g_durable g <= SA.clp ths' (SA.g_size g) /\ SA.g_written g <= SA.clp ths' (SA.g_size g))%N.
+Proof. exact SAP.acct_sound. Qed.
+Theorem C12_dirty_bytes_overapproximate : forall (b : N) (ths : list SA.thread) (sched : list nat),
+  SA.fresh ths ->
+  let '(g, _) := SA.run SA.PNew (SA.init b ths) sched in (SA.g_size g - SA.g_synced g >= SA.g_size g - SA.g_durable g)%N.
+Proof. exact SAP.dirty_overapproximates. Qed.
+(* the accounting before the repair 91f0177 (a sync records `size`): a schedule on which bytes are counted as synced
+   that no sync covers (finding F25; replayed on the crate by regress/C12/f25_*.txt) *)
+Theorem C12_old_accounting_refuted : exists (b : N) (ths : list SA.thread) (sched : list nat),
+  SA.fresh ths /\ (let '(g, _) := SA.run SA.POldSyncLoadsSize (SA.init b ths) sched in (SA.g_durable g < SA.g_synced g)%N).
+Proof. exact SAP.old_protocol_refuted. Qed.
+(* the order inside the end of an append matters: reading `size` after the decrement is refuted as well *)
+Theorem C12_load_after_decrement_refuted : exists (b : N) (ths : list SA.thread) (sched : list nat),
+  SA.fresh ths /\ (let '(g, _) := SA.run SA.PLoadAfterDecrement (SA.init b ths) sched in (SA.g_durable g < SA.g_synced g)%N).
+Proof. exact SAP.load_after_decrement_refuted. Qed.
+(* with appends serialised by the caller (the upgradable lock of Blob::write: `sstep` lets an append start only when
+   none is in flight) the counter is exact whenever no append is in flight, and a sync that runs then leaves no
+   un-synced byte: the "after an explicit fsyncdata no un-synced bytes remain" clause *)
+Theorem C12_single_writer_precise : forall (b : N) (ths : list SA.thread) (sched : list nat),
+  SA.fresh ths ->
+  let '(g, _) := fold_left SA.sstep sched (SA.init b ths) in SA.g_pending g = 0%N -> SA.g_written g = SA.g_size g.
+Proof. exact SAP.single_writer_precise. Qed.
+Theorem C12_sync_when_quiet_covers_everything : forall (b : N) (ths : list SA.thread) (sched : list nat),
+  SA.fresh ths ->
+  let '(g, ths') := fold_left SA.sstep sched (SA.init b ths) in
+  SA.g_pending g = 0%N ->
+  let k := length ths' in
+  let '(g2, ths2) := SA.sstep (SA.sstep (SA.sstep (g, ths' ++ SA.TS SA.SNew :: nil) k) k) k in
+  SA.g_synced g2 = SA.g_size g2 /\ SA.g_durable g2 = SA.g_size g2 /\ SA.g_size g2 = SA.g_size g /\ ths2 = ths' ++ SA.TS SA.SDone :: nil.
+Proof. exact SAP.sync_when_quiet_covers_everything. Qed.
+(* without that lock the counter stays safe but may lag behind (documented, not a violation) *)
+Theorem C12_concurrent_appends_may_underestimate : exists (b : N) (ths : list SA.thread) (sched : list nat),
+  SA.fresh ths /\ (let '(g, ths') := SA.run SA.PNew (SA.init b ths) sched in
+    forallb SA.is_done ths' = true /\ SA.g_pending g = 0%N /\ (SA.g_written g < SA.g_size g)%N).
+Proof. exact SAP.concurrent_appends_may_underestimate. Qed.
+(* the hypotheses are met by runs that finish: 3 appends, 2 syncs, base size 100 *)
+Example C12_accounting_example : SA.fresh SAP.ex_ths /\
+  (forallb SA.is_done (snd (SA.run SA.PNew (SA.init 100 SAP.ex_ths) SAP.ex_sched)) = true) /\
+  (SA.g_synced (fst (SA.run SA.PNew (SA.init 100 SAP.ex_ths) SAP.ex_sched)) = 123%N) /\
+  (SA.g_size (fst (SA.run SA.PNew (SA.init 100 SAP.ex_ths) SAP.ex_sched)) = 123%N).
+Proof. vm_compute. repeat split; reflexivity. Qed.
+
 (* ---- structural facts re-extracted from the Rust source on every run (tools/extract_src.py, Generated/Facts.v):
    the orderings inside the code that the models used above assume. A change of the code that invalidates one turns
    the generated boolean into `false` and this file no longer compiles. ---- *)
 (* a writer cannot append to a blob between its last sync and its move to the closed blobs *)
 Theorem C12_source_close_syncs_under_exclusive_lock : Pearl.Generated.Facts.CLOSE_SYNCS_UNDER_EXCLUSIVE_LOCK = true.
 Proof. reflexivity. Qed.
-(* bytes appended while a sync is in flight are not counted as synced *)
+(* bytes appended while a sync is in flight are not counted as synced: what a sync records is `written_size` as read
+   before the sync started (step S1 of Conc/SyncAcct.v) *)
 Theorem C12_source_synced_size_before_sync : Pearl.Generated.Facts.SYNCED_SIZE_CAPTURED_BEFORE_SYNC = true.
+Proof. reflexivity. Qed.
+(* an append counts itself as in flight before it reserves its range (steps A1, A2), and `written_size` is raised to the
+   `size` read before the decrement only by the append that was the last one in flight (steps A4, A5) *)
+Theorem C12_source_append_in_flight_then_reserve : Pearl.Generated.Facts.APPEND_RESERVES_THEN_WRITES = true.
+Proof. reflexivity. Qed.
+Theorem C12_source_written_size_only_when_quiet : Pearl.Generated.Facts.WRITTEN_SIZE_ADVANCES_ONLY_WHEN_QUIET = true.
 Proof. reflexivity. Qed.
 (* a failed sync does not switch the threshold syncs off *)
 Theorem C12_source_fsync_flag_is_a_guard : Pearl.Generated.Facts.FSYNC_FLAG_IS_A_GUARD = true.
 Proof. reflexivity. Qed.
 
 Print Assumptions C12_every_history_trace_accepted.
+Print Assumptions C12_synced_never_exceeds_durable.
+Print Assumptions C12_dirty_bytes_overapproximate.
+Print Assumptions C12_old_accounting_refuted.
+Print Assumptions C12_load_after_decrement_refuted.
+Print Assumptions C12_single_writer_precise.
+Print Assumptions C12_sync_when_quiet_covers_everything.
+Print Assumptions C12_concurrent_appends_may_underestimate.
+Print Assumptions C12_accounting_example.
 Print Assumptions C12_header_synced_before_records.
 Print Assumptions C12_index_complete_only_after_blob_synced.
 Print Assumptions C12_protocol_accepted.
@@ -92,6 +160,8 @@ Print Assumptions C12_protocol_clean.
 Print Assumptions C12_trace_matches_state.
 Print Assumptions C12_source_synced_size_before_sync.
 Print Assumptions C12_source_fsync_flag_is_a_guard.
+Print Assumptions C12_source_append_in_flight_then_reserve.
+Print Assumptions C12_source_written_size_only_when_quiet.
 Print Assumptions C12_trace_after_crash_accepted.
 Print Assumptions C12_cut_trace_not_accepted.
 Print Assumptions C12_source_close_syncs_under_exclusive_lock.
